@@ -1,92 +1,379 @@
 import A2lVerif.Lemmas.TreeSim
+import A2lVerif.Props.C03Parse
 /-!
 # C06 — strict and non-strict loading agree except on recoverable problems
 
-Property theorems only; model in Model/Tree.lean. The parser reads `strict` in exactly one primitive, `errorOrLog`
-(error if strict, log otherwise); `logWarning` (deprecation notices) never fails. Quantification: every table, every
-token array, every type, context, state and fuel.
+Property theorems only; model in Model/Tree.lean, proofs in Lemmas/TreeSim.lean. The parser reads `strict` in exactly
+one primitive, `errorOrLog` (error if strict, log otherwise); `logWarning` (deprecation notices) never fails.
+Quantification: every table, every token array, every type, context, state and fuel.
+
+Four of the six statements were FALSE as first written; each is kept below as a refuted statement
+(`*_as_written_false`, with a concrete counterexample) next to the corrected theorem:
+
+* `clean_nonstrict_implies_strict`, `clean_nonstrict_implies_strict_file`, `strict_ok_iff_partial` (direction `←`):
+  `SpecialSim` did not say enough about the hand-written `special` parsers in NON-strict mode.
+  (a) Nothing forced them to only ADD to the log: a `special` parser that removes log entries hides a problem that
+  `error_or_log` recorded before it ran; the non-strict run then ends with a clean log while the strict run failed at
+  that `error_or_log` (`cexSpDrop`). (b) Nothing was said about a non-strict FAILURE of a `special` parser: inside a
+  sequence element the failure is swallowed (`sequence_item.is_err()`), the non-strict run succeeds with a clean log,
+  and the strict run of the `special` parser may do anything else, e.g. panic (`cexSpErr`).
+  Added hypothesis: `SpecialSimMore e` (three clauses: non-strict `ok` and `err` results extend the log; a non-strict
+  `err` that logged notices only is also the strict result). Both parts are needed
+  (`clean_nonstrict_needs_log_mono`, `clean_nonstrict_needs_err_clause`).
+* `strict_implies_nonstrict_partial`, `strict_ok_iff_partial` (direction `→`): `seqSafe` only inspects the sequences
+  that are parameters of a block directly; a sequence below an array (`.arr (.seq .ident []) 1`) is not checked, and
+  there a strict-mode error is swallowed by the sequence loop while the non-strict run logs and goes on
+  (`cexTblArrSeq`). Changed hypothesis: `seqSafeDeep e.table = true` (which implies `seqSafe`:
+  `seqSafeDeep_implies_seqSafe`) in place of `seqSafe e.table = true`.
 -/
 namespace A2l.Tree
 open A2l.G
 
-def nonStrict (e : Env) : Env := { e with strict := false }
-def strictOf (e : Env) : Env := { e with strict := true }
+/-! ## the definitions
+
+`nonStrict`, `strictOf`, `IsNotice`, `quietItem`, `seqSafe`, `SpecialSim` (as first written) and the two additions
+`SpecialSimMore`, `seqSafeItem` / `seqSafeDeep` live in Lemmas/TreeSim.lean because the helper lemmas need them. They
+are restated here; every line below is checked by `rfl` / `Iff.rfl`, i.e. it is the definition. -/
+
+theorem nonStrict_def (e : Env) : nonStrict e = { e with strict := false } := rfl
+theorem strictOf_def (e : Env) : strictOf e = { e with strict := true } := rfl
 
 /-- deprecation notices: the only diagnostics that `log_warning` (as opposed to `error_or_log`) produces -/
-def IsNotice (d : Diag) : Prop := d.kind = .blockRefDeprecated ∨ d.kind = .enumRefDeprecated
+theorem IsNotice_def (d : Diag) : IsNotice d ↔ (d.kind = .blockRefDeprecated ∨ d.kind = .enumRefDeprecated) := Iff.rfl
 
 /-- item types whose parsers never call `error_or_log`: numbers only (arrays and structs of them) -/
-def quietItem (tbl : Table) : Nat → ItemTy → Bool
-  | _, .int _ => true
-  | _, .double => true
-  | _, .float => true
-  | fuel + 1, .arr of _ => quietItem tbl fuel of
-  | fuel + 1, .structRef ty => match tbl.lookup ty with
-    | some (.block false items [] false) => items.all (quietItem tbl fuel)
-    | _ => false
-  | _, _ => false
+theorem quietItem_def (tbl : Table) (n : Nat) (it : ItemTy) : quietItem tbl n it =
+    (match n, it with
+     | _, .int _ => true
+     | _, .double => true
+     | _, .float => true
+     | fuel + 1, .arr of _ => quietItem tbl fuel of
+     | fuel + 1, .structRef ty => match tbl.lookup ty with
+       | some (.block false items [] false) => items.all (quietItem tbl fuel)
+       | _ => false
+     | _, _ => false) := by
+  cases n <;> cases it <;> rfl
+
+/-- tables in which no sequence parameter of a block can call `error_or_log` (as first written: sequences below
+    arrays are not inspected) -/
+theorem seqSafe_def (tbl : Table) : seqSafe tbl =
+    tbl.all (fun en => match en.def_ with
+      | .block _ items _ _ => items.all fun it => match it with
+        | .seq of _ => quietItem tbl tbl.length of
+        | _ => true
+      | _ => true) := rfl
+
+/-- every sequence inside the item, also below arrays, has a quiet element type -/
+example (tbl : Table) (of : ItemTy) (stop : List Nat) :
+    seqSafeItem tbl (.seq of stop) = quietItem tbl tbl.length of := rfl
+example (tbl : Table) (of : ItemTy) (n : Nat) : seqSafeItem tbl (.arr of n) = seqSafeItem tbl of := rfl
+example (tbl : Table) : seqSafeItem tbl .ident = true ∧ seqSafeItem tbl .string = true ∧
+    seqSafeItem tbl .double = true ∧ seqSafeItem tbl .float = true ∧ (∀ w, seqSafeItem tbl (.int w) = true) ∧
+    (∀ n, seqSafeItem tbl (.strMax n) = true) ∧ (∀ ty, seqSafeItem tbl (.enumRef ty) = true) ∧
+    (∀ ty, seqSafeItem tbl (.structRef ty) = true) :=
+  ⟨rfl, rfl, rfl, rfl, fun _ => rfl, fun _ => rfl, fun _ => rfl, fun _ => rfl⟩
 
 /-- tables in which no sequence element can call `error_or_log`: then no strict-mode error is ever swallowed by the
     greedy sequence loop (`sequence_item.is_err()`), the one place where the two modes can take different paths -/
-def seqSafe (tbl : Table) : Bool :=
-  tbl.all fun en => match en.def_ with
-    | .block _ items _ _ => items.all fun it => match it with
-      | .seq of _ => quietItem tbl tbl.length of
-      | _ => true
-    | _ => true
+theorem seqSafeDeep_def (tbl : Table) : seqSafeDeep tbl =
+    tbl.all (fun en => match en.def_ with
+      | .block _ items _ _ => items.all (seqSafeItem tbl)
+      | _ => true) := rfl
 
-/-- the hand-written parsers of the special types, as far as C06 is concerned -/
-def SpecialSim (e : Env) : Prop :=
-  ∀ ty ctx off s,
-    (∀ v s', e.special ty ctx off e.toks false s = .ok v s' →
-        (∃ l, s'.log = l ++ s.log ∧ ∀ d ∈ l, IsNotice d) → e.special ty ctx off e.toks true s = .ok v s') ∧
-    (∀ v s', e.special ty ctx off e.toks true s = .ok v s' → e.special ty ctx off e.toks false s = .ok v s') ∧
-    (∀ d s', e.special ty ctx off e.toks true s = .err d s' →
-        e.special ty ctx off e.toks false s = .err d s' ∨
-        ∃ v s'', e.special ty ctx off e.toks false s = .ok v s'' ∧ ∃ l, s''.log = l ++ s.log ∧ ∃ d' ∈ l, ¬ IsNotice d')
+theorem seqSafeDeep_implies_seqSafe (tbl : Table) (h : seqSafeDeep tbl = true) : seqSafe tbl = true :=
+  seqSafeDeep_seqSafe h
+
+/-- the hand-written parsers of the special types, as far as C06 is concerned (as first written) -/
+theorem SpecialSim_def (e : Env) : SpecialSim e ↔
+    ∀ ty ctx off s,
+      (∀ v s', e.special ty ctx off e.toks false s = .ok v s' →
+          (∃ l, s'.log = l ++ s.log ∧ ∀ d ∈ l, IsNotice d) → e.special ty ctx off e.toks true s = .ok v s') ∧
+      (∀ v s', e.special ty ctx off e.toks true s = .ok v s' → e.special ty ctx off e.toks false s = .ok v s') ∧
+      (∀ d s', e.special ty ctx off e.toks true s = .err d s' →
+          e.special ty ctx off e.toks false s = .err d s' ∨
+          ∃ v s'', e.special ty ctx off e.toks false s = .ok v s'' ∧
+            ∃ l, s''.log = l ++ s.log ∧ ∃ d' ∈ l, ¬ IsNotice d') := Iff.rfl
+
+/-- ADDED: what `SpecialSim` does not say about the non-strict runs of the special parsers: a failure that logged
+    notices only is also the strict result, and the log is only ever extended (by `ok` and by `err` results: the log
+    of a failed sequence element stays) -/
+theorem SpecialSimMore_def (e : Env) : SpecialSimMore e ↔
+    ∀ ty ctx off s,
+      (∀ d s', e.special ty ctx off e.toks false s = .err d s' →
+          (∃ l, s'.log = l ++ s.log ∧ ∀ d ∈ l, IsNotice d) → e.special ty ctx off e.toks true s = .err d s') ∧
+      (∀ v s', e.special ty ctx off e.toks false s = .ok v s' → ∃ l, s'.log = l ++ s.log) ∧
+      (∀ d s', e.special ty ctx off e.toks false s = .err d s' → ∃ l, s'.log = l ++ s.log) := Iff.rfl
+
+/-! ## the theorems -/
 
 /-- **`error_or_log` is the only place that reads `strict`, and every diagnostic carries the line of the last consumed
     token** -/
 theorem errorOrLog_spec (e : Env) (s : PState) (k : DK) :
     errorOrLog k e s = (if e.strict then .err ⟨k, s.lastLine⟩ s else .ok () { s with log := ⟨k, s.lastLine⟩ :: s.log }) ∧
-    logWarning k e s = .ok () { s with log := ⟨k, s.lastLine⟩ :: s.log } := sorry
+    logWarning k e s = .ok () { s with log := ⟨k, s.lastLine⟩ :: s.log } := by
+  refine ⟨?_, rfl⟩
+  unfold errorOrLog
+  simp only [getEnv_bind]
+  cases e.strict <;> rfl
 
 theorem getToken_sets_line (e : Env) (s : PState) (ctx : Ctx) (t : PTok) (h : e.toks[s.pos]? = some t) :
-    getToken ctx e s = .ok t { s with pos := s.pos + 1, lastLine := t.line } := sorry
+    getToken ctx e s = .ok t { s with pos := s.pos + 1, lastLine := t.line } := by
+  rw [getToken_eval, h]
 
 /-- **non-strict loading without problems ⇒ strict loading succeeds with an equal model and the same notices**:
-    if the non-strict run succeeds and everything it logged is a deprecation notice, the strict run is identical -/
-theorem clean_nonstrict_implies_strict (e : Env) (hsp : SpecialSim e) (fuel : Nat) (ty : Nat) (ctx : Ctx) (off : Nat)
+    if the non-strict run succeeds and everything it logged is a deprecation notice, the strict run is identical.
+    CORRECTED with respect to the first version: `hsp'` (`SpecialSimMore`: the special parsers only extend the log in
+    non-strict mode, and their clean non-strict failures are strict failures) was missing; see the refutations below. -/
+theorem clean_nonstrict_implies_strict (e : Env) (hsp : SpecialSim e) (hsp' : SpecialSimMore e)
+    (fuel : Nat) (ty : Nat) (ctx : Ctx) (off : Nat)
     (s : PState) (v : Val) (s' : PState)
     (h : parseType fuel ty ctx off (nonStrict e) s = .ok v s')
     (hclean : ∃ l, s'.log = l ++ s.log ∧ ∀ d ∈ l, IsNotice d) :
-    parseType fuel ty ctx off (strictOf e) s = .ok v s' := sorry
+    parseType fuel ty ctx off (strictOf e) s = .ok v s' := by
+  have := (allSim hsp hsp' fuel).type ty ctx off s
+  rw [h] at this
+  exact this.2 hclean
 
-theorem clean_nonstrict_implies_strict_file (e : Env) (hsp : SpecialSim e) (v : Val) (s' : PState)
+/-- CORRECTED: `hsp'` added, as for `clean_nonstrict_implies_strict`. -/
+theorem clean_nonstrict_implies_strict_file (e : Env) (hsp : SpecialSim e) (hsp' : SpecialSimMore e)
+    (v : Val) (s' : PState)
     (h : runParseFile (nonStrict e) = .ok v s') (hclean : ∀ d ∈ s'.log, IsNotice d) :
-    runParseFile (strictOf e) = .ok v s' := sorry
+    runParseFile (strictOf e) = .ok v s' := by
+  have := parseFile_sim hsp hsp' (4 * e.toks.size + 64) {}
+  have h' : parseFile (4 * e.toks.size + 64) (nonStrict e) {} = .ok v s' := h
+  rw [h'] at this
+  exact this.2 ⟨s'.log, (List.append_nil _).symm, hclean⟩
 
 /-- **strict loading succeeds ⇒ non-strict loading succeeds with an equal model** — for tables in which no sequence
-    element can raise a recoverable problem (`seqSafe`). The shipped table is NOT of this kind (identifier and string
-    lists): there the statement is covered by the correspondence check and the oracle only; see DESIGN.md. -/
-theorem strict_implies_nonstrict_partial (e : Env) (hsafe : seqSafe e.table = true) (hsp : SpecialSim e)
+    element can raise a recoverable problem (`seqSafeDeep`). The shipped table is NOT of this kind (identifier and
+    string lists): there the statement is covered by the correspondence check and the oracle only; see DESIGN.md.
+    CORRECTED: the hypothesis was `seqSafe e.table = true`, which does not look at sequences below arrays. -/
+theorem strict_implies_nonstrict_partial (e : Env) (hsafe : seqSafeDeep e.table = true) (hsp : SpecialSim e)
     (fuel : Nat) (ty : Nat) (ctx : Ctx) (off : Nat) (s : PState) (v : Val) (s' : PState)
     (h : parseType fuel ty ctx off (strictOf e) s = .ok v s') :
-    parseType fuel ty ctx off (nonStrict e) s = .ok v s' := sorry
+    parseType fuel ty ctx off (nonStrict e) s = .ok v s' :=
+  (allFwd hsafe hsp fuel).type ty ctx off s v s' h
 
 /-- **strict loading fails exactly when non-strict loading reports a problem other than a deprecation notice** (or
-    fails itself), again for `seqSafe` tables; both yield equal models when both succeed -/
-theorem strict_ok_iff_partial (e : Env) (hsafe : seqSafe e.table = true) (hsp : SpecialSim e)
+    fails itself), again for `seqSafeDeep` tables; both yield equal models when both succeed.
+    CORRECTED: `seqSafeDeep` in place of `seqSafe` (needed for `→`), `hsp'` added (needed for `←`). -/
+theorem strict_ok_iff_partial (e : Env) (hsafe : seqSafeDeep e.table = true) (hsp : SpecialSim e)
+    (hsp' : SpecialSimMore e)
     (hspn : ∀ ty ctx off s v s', e.special ty ctx off e.toks true s = .ok v s' →
       ∃ l, s'.log = l ++ s.log ∧ ∀ d ∈ l, IsNotice d)
     (hspe : ∀ ty ctx off s d s', e.special ty ctx off e.toks true s = .err d s' →
       ∃ l, s'.log = l ++ s.log ∧ ∀ d ∈ l, IsNotice d)
     (fuel : Nat) (ty : Nat) (ctx : Ctx) (off : Nat) (s : PState) (v : Val) (s' : PState) :
     parseType fuel ty ctx off (strictOf e) s = .ok v s' ↔
-      (parseType fuel ty ctx off (nonStrict e) s = .ok v s' ∧ ∃ l, s'.log = l ++ s.log ∧ ∀ d ∈ l, IsNotice d) := sorry
+      (parseType fuel ty ctx off (nonStrict e) s = .ok v s' ∧ ∃ l, s'.log = l ++ s.log ∧ ∀ d ∈ l, IsNotice d) := by
+  constructor
+  · intro h
+    exact ⟨strict_implies_nonstrict_partial e hsafe hsp fuel ty ctx off s v s' h,
+      strict_log_only_warnings (strictOf e) rfl hspn hspe fuel ty ctx off s v s' h⟩
+  · intro h
+    exact clean_nonstrict_implies_strict e hsp hsp' fuel ty ctx off s v s' h.1 h.2
 
 /-! ## non-vacuity: a table with a sequence of numbers is seqSafe; one with a sequence of identifiers is not -/
-example : seqSafe [⟨0, .block true [.seq (.int 2) []] [] false⟩] = true := sorry
-example : seqSafe [⟨0, .block true [.seq .ident []] [] false⟩] = false := sorry
+example : seqSafe [⟨0, .block true [.seq (.int 2) []] [] false⟩] = true := by decide
+example : seqSafe [⟨0, .block true [.seq .ident []] [] false⟩] = false := by decide
+example : seqSafeDeep [⟨0, .block true [.seq (.int 2) []] [] false⟩] = true := by decide
+example : seqSafeDeep [⟨0, .block true [.seq .ident []] [] false⟩] = false := by decide
+example : seqSafeDeep [⟨0, .block true [.arr (.seq (.int 2) []) 3] [] false⟩] = true := by decide
+
+/-! ## the statements as first written, refuted -/
+
+/-- one identifier token -/
+def cexTokX : PTok := { ty := 0, text := ['x'], line := 1, sym := 3 }
+
+/-- a `special` parser that clears a non-empty log in non-strict mode (and panics in strict mode); with an empty log
+    it succeeds and changes nothing -/
+def cexSpDrop : Nat → Ctx → Nat → Array PTok → Bool → PState → PRes Val :=
+  fun _ _ _ _ strict s => match s.log with
+    | [] => .ok (.arr []) s
+    | _ :: _ => if strict then .panic else .ok (.arr []) { s with log := [] }
+
+/-- type 0: a keyword (`A2L_FILE`-like) with one optional arm (tag 3) of the special type 2 that exists from a
+    version on that no file has (7): using it is the recoverable problem `BlockRefTooNew` -/
+def cexTblDrop : Table := [⟨0, .block false [] [⟨3, 2, false, false, false, 7, 0⟩] true⟩, ⟨2, .special⟩]
+def cexEnvDrop : Env :=
+  { toks := #[cexTokX], strict := false, table := cexTblDrop, known := ⟨0, 1, 99⟩, special := cexSpDrop }
+
+theorem cexSpDrop_sim (e : Env) (h : e.special = cexSpDrop) : SpecialSim e := by
+  intro ty ctx off s
+  rw [h]
+  unfold cexSpDrop
+  cases hl : s.log with
+  | nil =>
+    exact ⟨fun v s' h _ => h, fun v s' h => h, fun d s' h => (by cases h)⟩
+  | cons d l =>
+    refine ⟨fun v s' h hc => ?_, fun v s' h => (by cases h), fun d s' h => (by cases h)⟩
+    obtain ⟨l', hl', -⟩ := hc
+    cases h
+    cases l' <;> cases hl'
+
+/-- `cexSpDrop` never fails: the first clause of `SpecialSimMore` holds for it -/
+theorem cexSpDrop_errClause (e : Env) (h : e.special = cexSpDrop) : ∀ ty ctx off s,
+    ∀ d s', e.special ty ctx off e.toks false s = .err d s' →
+      (∃ l, s'.log = l ++ s.log ∧ ∀ d ∈ l, IsNotice d) → e.special ty ctx off e.toks true s = .err d s' := by
+  intro ty ctx off s d s' hr
+  rw [h] at hr
+  unfold cexSpDrop at hr
+  cases hl : s.log with
+  | nil => rw [hl] at hr; cases hr
+  | cons d l => rw [hl] at hr; cases hr
+
+/-- in strict mode `cexSpDrop` leaves the log alone (the hypotheses `hspn`, `hspe` of `strict_ok_iff_partial`) -/
+theorem cexSpDrop_strict (toks : Array PTok) (ty : Nat) (ctx : Ctx) (off : Nat) (s : PState) :
+    (∀ v s', cexSpDrop ty ctx off toks true s = .ok v s' → ∃ l, s'.log = l ++ s.log ∧ ∀ d ∈ l, IsNotice d) ∧
+    (∀ d s', cexSpDrop ty ctx off toks true s = .err d s' → ∃ l, s'.log = l ++ s.log ∧ ∀ d ∈ l, IsNotice d) := by
+  unfold cexSpDrop
+  cases hl : s.log with
+  | nil =>
+    refine ⟨fun v s' hr => ?_, fun d s' hr => (by cases hr)⟩
+    cases hr
+    exact ⟨[], hl, fun _ hd => nomatch hd⟩
+  | cons d l => exact ⟨fun v s' hr => (by cases hr), fun d s' hr => (by cases hr)⟩
+
+/-- `clean_nonstrict_implies_strict` without `hsp'` is false: `BlockRefTooNew` is logged, the special parser of
+    the sub-block wipes the log, the non-strict run ends with an empty log; the strict run fails at `BlockRefTooNew` -/
+theorem clean_nonstrict_implies_strict_as_written_false :
+    ¬ ∀ (e : Env) (_ : SpecialSim e) (fuel ty : Nat) (ctx : Ctx) (off : Nat) (s : PState) (v : Val) (s' : PState)
+      (_ : parseType fuel ty ctx off (nonStrict e) s = .ok v s')
+      (_ : ∃ l, s'.log = l ++ s.log ∧ ∀ d ∈ l, IsNotice d),
+      parseType fuel ty ctx off (strictOf e) s = .ok v s' := by
+  intro h
+  have hs : parseType 10 0 ⟨[], 0, 1⟩ 0 (strictOf cexEnvDrop) {} =
+      .err ⟨.blockRefTooNew, 1⟩ { pos := 1, lastLine := 1, seqId := 1 } := rfl
+  have := h cexEnvDrop (cexSpDrop_sim _ rfl) 10 0 ⟨[], 0, 1⟩ 0 {} _ _ rfl ⟨[], rfl, fun _ hd => nomatch hd⟩
+  have := hs.symm.trans this
+  cases this
+
+/-- ... and it stays false when only the first clause of `SpecialSimMore` (about failures) is added: the clauses
+    about the log are needed -/
+theorem clean_nonstrict_needs_log_mono :
+    ¬ ∀ (e : Env) (_ : SpecialSim e)
+      (_ : ∀ ty ctx off s d s', e.special ty ctx off e.toks false s = .err d s' →
+        (∃ l, s'.log = l ++ s.log ∧ ∀ d ∈ l, IsNotice d) → e.special ty ctx off e.toks true s = .err d s')
+      (fuel ty : Nat) (ctx : Ctx) (off : Nat) (s : PState) (v : Val) (s' : PState)
+      (_ : parseType fuel ty ctx off (nonStrict e) s = .ok v s')
+      (_ : ∃ l, s'.log = l ++ s.log ∧ ∀ d ∈ l, IsNotice d),
+      parseType fuel ty ctx off (strictOf e) s = .ok v s' := by
+  intro h
+  have hs : parseType 10 0 ⟨[], 0, 1⟩ 0 (strictOf cexEnvDrop) {} =
+      .err ⟨.blockRefTooNew, 1⟩ { pos := 1, lastLine := 1, seqId := 1 } := rfl
+  have := h cexEnvDrop (cexSpDrop_sim _ rfl) (cexSpDrop_errClause _ rfl) 10 0 ⟨[], 0, 1⟩ 0 {} _ _ rfl
+    ⟨[], rfl, fun _ hd => nomatch hd⟩
+  have := hs.symm.trans this
+  cases this
+
+/-- a `special` parser that fails (silently) in non-strict mode and panics in strict mode -/
+def cexSpErr : Nat → Ctx → Nat → Array PTok → Bool → PState → PRes Val :=
+  fun _ _ _ _ strict s => if strict then .panic else .err ⟨.a2mlError, 0⟩ s
+
+/-- type 0: a keyword whose parameter is a sequence of struct 1; struct 1 has a tagged part with one arm (tag 3)
+    of the special type 2 -/
+def cexTblErr : Table :=
+  [⟨0, .block false [.seq (.structRef 1) []] [] false⟩,
+   ⟨1, .block false [] [⟨3, 2, false, false, false, 0, 0⟩] true⟩,
+   ⟨2, .special⟩]
+def cexEnvErr : Env := { toks := #[cexTokX], strict := false, table := cexTblErr, special := cexSpErr }
+
+theorem cexSpErr_sim (e : Env) (h : e.special = cexSpErr) : SpecialSim e := by
+  intro ty ctx off s
+  rw [h]
+  exact ⟨fun v s' h => (by cases h), fun v s' h => (by cases h), fun d s' h => (by cases h)⟩
+
+/-- `cexSpErr` does not touch the log: the last two clauses of `SpecialSimMore` hold for it -/
+theorem cexSpErr_logMono (e : Env) (h : e.special = cexSpErr) : ∀ ty ctx off s,
+    (∀ v s', e.special ty ctx off e.toks false s = .ok v s' → ∃ l, s'.log = l ++ s.log) ∧
+    (∀ d s', e.special ty ctx off e.toks false s = .err d s' → ∃ l, s'.log = l ++ s.log) := by
+  intro ty ctx off s
+  rw [h]
+  refine ⟨fun v s' h => (by cases h), fun d s' h => ?_⟩
+  cases h
+  exact ⟨[], rfl⟩
+
+/-- `clean_nonstrict_implies_strict` with the clauses about the log only is still false: the sequence swallows the
+    non-strict failure of the special parser (clean log, empty sequence); the strict run panics -/
+theorem clean_nonstrict_needs_err_clause :
+    ¬ ∀ (e : Env) (_ : SpecialSim e)
+      (_ : ∀ ty ctx off s,
+        (∀ v s', e.special ty ctx off e.toks false s = .ok v s' → ∃ l, s'.log = l ++ s.log) ∧
+        (∀ d s', e.special ty ctx off e.toks false s = .err d s' → ∃ l, s'.log = l ++ s.log))
+      (fuel ty : Nat) (ctx : Ctx) (off : Nat) (s : PState) (v : Val) (s' : PState)
+      (_ : parseType fuel ty ctx off (nonStrict e) s = .ok v s')
+      (_ : ∃ l, s'.log = l ++ s.log ∧ ∀ d ∈ l, IsNotice d),
+      parseType fuel ty ctx off (strictOf e) s = .ok v s' := by
+  intro h
+  have hs : parseType 10 0 ⟨[], 0, 1⟩ 0 (strictOf cexEnvErr) {} = .panic := rfl
+  have := h cexEnvErr (cexSpErr_sim _ rfl) (cexSpErr_logMono _ rfl) 10 0 ⟨[], 0, 1⟩ 0 {} _ _ rfl
+    ⟨[], rfl, fun _ hd => nomatch hd⟩
+  have := hs.symm.trans this
+  cases this
+
+/-- `clean_nonstrict_implies_strict_file` without `hsp'` is false: the same run as a file (no `ASAP2_VERSION`:
+    `MissingVersionInfo` is logged as well and wiped as well) -/
+theorem clean_nonstrict_implies_strict_file_as_written_false :
+    ¬ ∀ (e : Env) (_ : SpecialSim e) (v : Val) (s' : PState)
+      (_ : runParseFile (nonStrict e) = .ok v s') (_ : ∀ d ∈ s'.log, IsNotice d),
+      runParseFile (strictOf e) = .ok v s' := by
+  intro h
+  have hs : runParseFile (strictOf cexEnvDrop) = .err ⟨.missingVersionInfo, 0⟩ { pos := 0, lastLine := 1 } := rfl
+  have := h cexEnvDrop (cexSpDrop_sim _ rfl) _ _ rfl (fun _ hd => nomatch hd)
+  have := hs.symm.trans this
+  cases this
+
+/-- an identifier token that is not a valid identifier (`InvalidIdentifier`, recoverable) -/
+def cexTok1a : PTok := { ty := 0, text := ['1', 'a'], line := 1, sym := 3 }
+/-- a keyword whose parameter is an array (of length 1) of sequences of identifiers -/
+def cexTblArrSeq : Table := [⟨0, .block false [.arr (.seq .ident []) 1] [] false⟩]
+def cexEnvArrSeq : Env := { toks := #[cexTok1a], strict := false, table := cexTblArrSeq }
+
+/-- the default `special` parser of the model (always panics) -/
+theorem panicSpecial_sim (e : Env) (h : e.special = fun _ _ _ _ _ _ => .panic) : SpecialSim e := by
+  intro ty ctx off s
+  rw [h]
+  exact ⟨fun v s' h => (by cases h), fun v s' h => (by cases h), fun d s' h => (by cases h)⟩
+
+/-- `strict_implies_nonstrict_partial` with `seqSafe` is false: the table passes `seqSafe` (the sequence is below an
+    array), the strict run swallows `InvalidIdentifier` in the sequence loop and returns an empty sequence at
+    position 0, the non-strict run logs it and returns the identifier at position 1 -/
+theorem strict_implies_nonstrict_partial_as_written_false :
+    ¬ ∀ (e : Env) (_ : seqSafe e.table = true) (_ : SpecialSim e)
+      (fuel ty : Nat) (ctx : Ctx) (off : Nat) (s : PState) (v : Val) (s' : PState)
+      (_ : parseType fuel ty ctx off (strictOf e) s = .ok v s'),
+      parseType fuel ty ctx off (nonStrict e) s = .ok v s' := by
+  intro h
+  have hs : ∃ v s', parseType 10 0 ⟨[], 0, 1⟩ 0 (nonStrict cexEnvArrSeq) {} = .ok v s' ∧ s'.pos = 1 :=
+    ⟨_, _, rfl, rfl⟩
+  obtain ⟨v, s', hv, hpos⟩ := hs
+  have := h cexEnvArrSeq rfl (panicSpecial_sim _ rfl) 10 0 ⟨[], 0, 1⟩ 0 {} _ _ rfl
+  have := hv.symm.trans this
+  cases this
+  cases hpos
+
+/-- `strict_ok_iff_partial` as first written is false (direction `←`, by `cexEnvDrop`, whose table has no sequence) -/
+theorem strict_ok_iff_partial_as_written_false :
+    ¬ ∀ (e : Env) (_ : seqSafe e.table = true) (_ : SpecialSim e)
+      (_ : ∀ ty ctx off s v s', e.special ty ctx off e.toks true s = .ok v s' →
+        ∃ l, s'.log = l ++ s.log ∧ ∀ d ∈ l, IsNotice d)
+      (_ : ∀ ty ctx off s d s', e.special ty ctx off e.toks true s = .err d s' →
+        ∃ l, s'.log = l ++ s.log ∧ ∀ d ∈ l, IsNotice d)
+      (fuel ty : Nat) (ctx : Ctx) (off : Nat) (s : PState) (v : Val) (s' : PState),
+      parseType fuel ty ctx off (strictOf e) s = .ok v s' ↔
+        (parseType fuel ty ctx off (nonStrict e) s = .ok v s' ∧ ∃ l, s'.log = l ++ s.log ∧ ∀ d ∈ l, IsNotice d) := by
+  intro h
+  have hs : parseType 10 0 ⟨[], 0, 1⟩ 0 (strictOf cexEnvDrop) {} =
+      .err ⟨.blockRefTooNew, 1⟩ { pos := 1, lastLine := 1, seqId := 1 } := rfl
+  have hn : ∀ ty ctx off s v s', cexEnvDrop.special ty ctx off cexEnvDrop.toks true s = .ok v s' →
+      ∃ l, s'.log = l ++ s.log ∧ ∀ d ∈ l, IsNotice d :=
+    fun ty ctx off s v s' hr => (cexSpDrop_strict cexEnvDrop.toks ty ctx off s).1 v s' hr
+  have he : ∀ ty ctx off s d s', cexEnvDrop.special ty ctx off cexEnvDrop.toks true s = .err d s' →
+      ∃ l, s'.log = l ++ s.log ∧ ∀ d ∈ l, IsNotice d :=
+    fun ty ctx off s d s' hr => (cexSpDrop_strict cexEnvDrop.toks ty ctx off s).2 d s' hr
+  have := (h cexEnvDrop rfl (cexSpDrop_sim _ rfl) hn he 10 0 ⟨[], 0, 1⟩ 0 {} _ _).2
+    ⟨rfl, [], rfl, fun _ hd => nomatch hd⟩
+  have := hs.symm.trans this
+  cases this
 
 end A2l.Tree
